@@ -60,6 +60,9 @@ func (ex *Exec) call(st *State, in ssa.Instruction, c *ssa.CallCommon) (Value, b
 	for i, a := range c.Args {
 		args[i] = TV{st.val(a), a.Type()}
 	}
+	if lockOp(name) != "" && len(args) == 1 && ex.lockCall(st, in, name, args[0].V) {
+		return Tu{}, false
+	}
 	spec, cf := ex.db.fnSpec(callee)
 	sig := callee.Signature
 	if spec == nil {
